@@ -14,11 +14,61 @@ TRIAGE = {
 }
 
 
+def check_loop_exits(ctx, rule, paths):
+    """The read loop of parse_all is left only at end of input or on KeyboardInterrupt (also used by C18.4)."""
+    repo = ctx.repo
+    f_pa = repo.func('Parser.parse_all')
+    loops = [n for n in f_pa.body_nodes() if isinstance(n, (ast.While, ast.For))]
+    ctx.check(len(loops) == 1, rule, 'parse_all:one-loop', f_pa.loc(), 'parse_all is one read loop')
+    nb = 0
+    for n in f_pa.body_nodes():
+        if isinstance(n, ast.Return) or isinstance(n, ast.Break):
+            nb += 1
+            par = n._parent
+            ok = False
+            why = ''
+            if isinstance(par, ast.If) and norm(par.test) in ("line == ''", "'' == line", 'not line'):
+                ok, why = True, 'end of input'
+            hh = n
+            while hh is not None and not isinstance(hh, ast.ExceptHandler):
+                hh = getattr(hh, '_parent', None)
+            if hh is not None and norm(hh.type) == 'KeyboardInterrupt':
+                ok, why = True, 'interrupt'
+            ctx.check(ok, rule, 'exit:%s:%s' % (type(n).__name__, why or norm(par)[:40]), f_pa.loc(n), 'loop exit on %s' % why,
+                      'the read loop can also be left at `%s` under `%s`: remaining lines are lost' % (norm(n), norm(par.test)[:60] if isinstance(par, ast.If) else type(par).__name__))
+    ctx.floor(rule, nb, 2, 'loop exits')
+    for p in paths:
+        if p.outcome[0] == 'fall':
+            eof = [v for a, v in p.decisions if a.text in ("'' == input_file.readline()",)] + \
+                  [not v for a, v in p.decisions if a.text in ('input_file.readline()', "0 < len(input_file.readline())")]
+            intr = any(e.kind == 'handler' and e.extra == 'KeyboardInterrupt' for e in p.events)
+            ctx.check((eof and eof[-1]) or intr, rule, 'exit:only-eof-or-interrupt', f_pa.loc(), 'parse_all returns only at end of input or on interrupt',
+                      'parse_all returns on path %s' % p.describe()[:160])
+        elif p.outcome[0] == 'raise':
+            ctx.violation(rule, 'exit:raises:%s' % p.outcome[1], f_pa.loc(), 'parse_all is left by %s on path %s' % (p.outcome[1], p.describe()[:120]))
+
+
 # exceptions that the (over-approximating) call graph lets escape but that cannot occur, with the rule that shows it
 ESC_TRIAGE = {
     ('core.letter_id_generator.number_to_letter_id', 'AssertionError'):
         'value >= 0: generations are list indices (C02.2), connection ordinals start at 0 and only grow (C04.3)',
 }
+
+
+def parse_all_paths(ctx):
+    repo = ctx.repo
+    f_pa = repo.func('Parser.parse_all')
+
+    def mr(e):
+        ft = e.ftext or ''
+        if ft == 'message':
+            return ['RuntimeError']
+        if ft == 'self.handle_message':
+            return ['RuntimeError', 'AssertionError']
+        if ft == 'input_file.readline':
+            return ['KeyboardInterrupt']
+        return ()
+    return paths_of(repo, f_pa, may_raise=mr, while_unroll=2 if ctx.tier == 'thorough' else 1)
 
 
 def run(ctx):
@@ -165,34 +215,7 @@ def run(ctx):
     esc = {rs for rs in ex.escapes(f_pa) if (rs.func.qual, rs.exc) not in ESC_TRIAGE}
     ctx.check(not esc, 'C08.3', 'parse_all:escape-set-empty', f_pa.loc(), 'no exception of the modelled kinds can escape parse_all (handlers cover the decode step, their own calls raise nothing)',
               'exceptions can escape parse_all: %s' % sorted(r.key() for r in esc)[:4])
-    loops = [n for n in f_pa.body_nodes() if isinstance(n, (ast.While, ast.For))]
-    ctx.check(len(loops) == 1, 'C08.3', 'parse_all:one-loop', f_pa.loc(), 'parse_all is one read loop')
-    nb = 0
-    for n in f_pa.body_nodes():
-        if isinstance(n, ast.Return) or isinstance(n, ast.Break):
-            nb += 1
-            par = n._parent
-            ok = False
-            why = ''
-            if isinstance(par, ast.If) and norm(par.test) in ("line == ''", "'' == line", 'not line'):
-                ok, why = True, 'end of input'
-            hh = n
-            while hh is not None and not isinstance(hh, ast.ExceptHandler):
-                hh = getattr(hh, '_parent', None)
-            if hh is not None and norm(hh.type) == 'KeyboardInterrupt':
-                ok, why = True, 'interrupt'
-            ctx.check(ok, 'C08.3', 'exit:%s:%s' % (type(n).__name__, why or norm(par)[:40]), f_pa.loc(n), 'loop exit on %s' % why,
-                      'the read loop can also be left at `%s` under `%s`: remaining lines are lost' % (norm(n), norm(par.test)[:60] if isinstance(par, ast.If) else type(par).__name__))
-    ctx.floor('C08.3', nb, 2, 'loop exits')
-    for p in paths:
-        if p.outcome[0] == 'fall':
-            eof = [v for a, v in p.decisions if a.text in ("'' == input_file.readline()",)] + \
-                  [not v for a, v in p.decisions if a.text in ('input_file.readline()', "0 < len(input_file.readline())")]
-            intr = any(e.kind == 'handler' and e.extra == 'KeyboardInterrupt' for e in p.events)
-            ctx.check((eof and eof[-1]) or intr, 'C08.3', 'exit:only-eof-or-interrupt', f_pa.loc(), 'parse_all returns only at end of input or on interrupt',
-                      'parse_all returns on path %s' % p.describe()[:160])
-        elif p.outcome[0] == 'raise':
-            ctx.violation('C08.3', 'exit:raises:%s' % p.outcome[1], f_pa.loc(), 'parse_all is left by %s on path %s' % (p.outcome[1], p.describe()[:120]))
+    check_loop_exits(ctx, 'C08.3', paths)
     # the EOF test happens before stripping
     for p in paths:
         for a, v in p.decisions:
